@@ -158,6 +158,66 @@ reg("C02", sim(
 
 
 # ---------------------------------------------------------------------------------------------------------
+# E2 histcheck
+# ---------------------------------------------------------------------------------------------------------
+HIST_NOTE = ("Trusted: the reference model in harness/histcheck/src/model.rs (one-step DDS history-cache specification "
+             "written from DDS 1.4) and the cfg(dust_dds_verif) read-only accessor of InstanceState's private fields. "
+             "Where the DDS specification leaves behaviour open (time filter on dispose/unregister changes, ownership after "
+             "dispose, instance-state change by a rejected or time-filtered change, KEEP_LAST replacement by non-data "
+             "changes, equal-strength tie = incumbent) the model accepts what the implementation does.")
+HIST_ASSUME = ["operation alphabets and depth bounds as listed under coverage.groups; histories longer than the depth bound are not explored",
+               "timestamps from a small set; reception timestamps strictly increasing",
+               "the reader entity is driven directly (UserDefinedDataReader), not through the mail handler"]
+
+
+def hist(text, rule, design_ref, floor=(10000, 5)):
+    return Spec("histcheck", "model_checking", text, HIST_NOTE,
+                "explicit-state breadth-first model checking of the real reader history cache with canonical state "
+                "hashing; one-step conformance to a reference model from every reachable state",
+                design_ref, rule, HIST_ASSUME, floor=floor, model_keys=True, timeout=(170, 3600))
+
+
+HIST_RULE = ("BFS over all operation histories up to the depth bound from the empty cache; state = canonical snapshot of the "
+             "real object (samples, instance records, ownership table) + ghost variables (live writers, accepted timestamps); "
+             "every (state, operation) pair is executed on the real UserDefinedDataReader and compared with the model; "
+             "distinct = distinct (operation kind, outcome class) pairs observed")
+
+reg("C18", hist("All histories (depth 5 quick / 7 thorough) of writes/disposes of 2 writers on 2 instances with reads/takes, for KEEP_LAST "
+                "depth 1-3 and KEEP_ALL combined with resource limits equal to / one above the depth: after every reception the stored "
+                "samples per instance must be exactly the model's (oldest replaced, never rejected for depth, nothing lost under KEEP_ALL).",
+                HIST_RULE, "DESIGN.md §4 C18"))
+reg("C19", hist("All histories over 3 instances x {write, dispose, unregister} for 11 consistent resource-limit settings: the snapshot never "
+                "exceeds a limit, a change that would exceed one is Rejected with a reason whose limit is really reached and leaves the "
+                "stored samples unchanged, a change with room is never rejected.",
+                HIST_RULE, "DESIGN.md §4 C19"))
+reg("C20", hist("From every reachable cache state (depth 4 quick / 6 thorough) the complete read/take lattice (2 x max{unlimited,1,2,0} x 3 sample "
+                "masks x 3 view masks x 4 instance masks x 4 instance arguments = 1152 calls) is executed and every returned sample, every "
+                "SampleInfo field (states, generation counts, three ranks, handles, valid_data), the error code and the complete post-state "
+                "are compared with the model.",
+                HIST_RULE, "DESIGN.md §4 C20"))
+reg("C21", hist("All arrival orders of up to 5 (7) samples with source timestamps from {1,2,3} (ties and duplicates included) from 1-2 writers on "
+                "2 instances, KEEP_ALL / KEEP_LAST 1,2, with takes in between: per instance the stored and the read order must be "
+                "non-decreasing in source timestamp (ties in arrival order); BY_RECEPTION: arrival order.",
+                HIST_RULE, "DESIGN.md §4 C21"))
+reg("C22", hist("All sequences (depth 5 / 7) over 2 writers x 2 instances x {write, dispose, unregister, dispose+unregister} with reads and "
+                "takes: instance state, view state and both generation counts of the instance record and of every stored sample must "
+                "follow the DDS life cycle (NO_WRITERS only when the last live writer unregisters, NEW exactly on first appearance or rebirth).",
+                HIST_RULE, "DESIGN.md §4 C22"))
+reg("C23", hist("From every reachable state over 3 instances (mixed read / unread / taken / disposed) all read/take_next_instance calls "
+                "(2 x 2 max x 27 mask combinations x previous handle in {none, h0, h1, h2, unknown}) must return the samples of the first "
+                "instance greater than the previous handle that has matching samples, NoData only if there is none.",
+                HIST_RULE, "DESIGN.md §4 C23", floor=(5000, 5)))
+reg("C24", hist("All histories of 2-3 writers with strengths {1<2, tie, 1<2<=2} x 2 instances x {write, dispose, unregister} under EXCLUSIVE "
+                "(and SHARED as control): a change of a writer that is not stronger than the current owner must leave samples, instance "
+                "state and ownership untouched; an accepted write makes its writer the owner; an unregister releases ownership.",
+                HIST_RULE, "DESIGN.md §4 C24"))
+reg("C25", hist("All timestamp sequences (length 5 / 6) over {1..5} incl. out-of-order and equal, minimum_separation in {0,1,2,3}, both destination "
+                "orders, takes in between: a data sample closer than the separation to any previously accepted data sample of the instance "
+                "must be filtered, one that is far from every accepted change must not be.",
+                HIST_RULE, "DESIGN.md §4 C25"))
+
+
+# ---------------------------------------------------------------------------------------------------------
 # MANIFEST
 # ---------------------------------------------------------------------------------------------------------
 def gen_manifest():
